@@ -5,7 +5,7 @@ random DAG generator.
 from vp import gen
 
 
-def base_program(pkg, layout="three", import_form="from_import", entry_data=False, with_ext=True, local=False, setvar=False):
+def base_program(pkg, layout="three", import_form="from_import", entry_data=False, with_ext=True, local=False, setvar=False, ext_inside=False):
     """
     main
      |- x0 = keep /a  A(1, 2)           literal arguments            A -> h1 -> h2, A -> C (data /c)
@@ -54,6 +54,11 @@ def base_program(pkg, layout="three", import_form="from_import", entry_data=Fals
     # a kept function whose result is text with \r\n and lone \r line ends
     CRT = gen.add_fn(p, mid, "CRT", const=39, data_path="/text/crlf")
     p["fns"][CRT]["ret"] = "crlf_str"
+    # kept functions whose result is a large text / large bytes
+    BGS = gen.add_fn(p, mid, "BGS", const=41, data_path="/text/big")
+    p["fns"][BGS]["ret"] = "big_str"
+    BGB = gen.add_fn(p, mid, "BGB", params=[("a", None)], const=42)
+    p["fns"][BGB]["ret"] = "big_bytes"
     # a kept call whose argument is a call written inside the argument list
     hn = gen.add_fn(p, mid, "hn", const=35)
     E4 = gen.add_fn(p, top, "E4", params=[("w", None)], const=36)
@@ -70,6 +75,8 @@ def base_program(pkg, layout="three", import_form="from_import", entry_data=Fals
         gen.s_call(EMS, []),
         gen.s_keep("/empty/bytes", EMB, [gen.lit("1")]),
         gen.s_call(CRT, []),
+        gen.s_call(BGS, []),
+        gen.s_keep("/bytes/big", BGB, [gen.lit("2")]),
     ]
     p["entry"] = main
     if setvar:
@@ -83,7 +90,14 @@ def base_program(pkg, layout="three", import_form="from_import", entry_data=Fals
         p["fns"][h2]["stmts"].append(gen.s_lazy_call())
     if with_ext:
         p["ext"] = {"pkg": pkg + "_ext", "const": 1, "var": "1", "comment": "c"}
-    p["_ids"] = {"h2": h2, "C": C, "h1": h1, "A": A, "B": B, "D": D, "E1": E1, "E2": E2, "E3": E3, "E3i": E3i, "E4": E4, "hn": hn, "EMS": EMS, "EMB": EMB, "CRT": CRT, "main": main, "leaf": leaf, "mid": mid, "top": top}
+        if ext_inside:
+            # the modules are accepted one by one under their dotted names; the non-accepted code lives in the same
+            # package, in a module whose name starts with the name of an accepted one, and accepted functions call it
+            p["accept_by_module"] = True
+            p["ext"]["pkg"] = gen.modname(p, leaf) + "_ext"
+            for fid in (A, main, C):
+                p["fns"][fid]["calls_ext"] = True
+    p["_ids"] = {"h2": h2, "C": C, "h1": h1, "A": A, "B": B, "D": D, "E1": E1, "E2": E2, "E3": E3, "E3i": E3i, "E4": E4, "hn": hn, "EMS": EMS, "EMB": EMB, "CRT": CRT, "BGS": BGS, "BGB": BGB, "main": main, "leaf": leaf, "mid": mid, "top": top}
     return p
 
 
@@ -212,7 +226,7 @@ def matrix_cases(tier, seed, stores=("local",)):
                 d.update({"position": pos, "import_form": form, "layout": layout})
                 emit("import:%s/%s@%s" % (form, layout, pos), p0, p1, d)
     # D7: higher-order reference, lambda, nested def, class/method
-    for variant in ("ref", "lambda_call", "nested_def", "nested_def_var", "nested_def_helper", "method_const", "method_var", "method_callee", "cls_attr", "cls_attr_other_module", "indent"):
+    for variant in ("ref", "lambda_call", "nested_def", "nested_def_var", "nested_def_helper", "nested_def_helper:default", "nested_def_helper:lambda_default", "nested_def_var:default", "nested_def_var:lambda_default", "nested_def_var:shadow", "method_const", "method_var", "method_callee", "cls_attr", "cls_attr_other_module", "indent"):
         for pos in ("A", "main", "C"):
             p0 = base_program("pm%d" % k)
             k += 1
@@ -237,20 +251,20 @@ def matrix_cases(tier, seed, stores=("local",)):
                 p1 = gen.clone(p0)
                 p1["fns"][ids[pos]]["stmts"][-1]["const"] = 51
                 d = {"kind": "set_const", "fn": f["name"], "site": ["T", f["name"]]}
-            elif variant == "nested_def_helper":
+            elif variant.startswith("nested_def_helper"):
                 # a helper that only a function defined inside the body calls
                 tgt = gen.add_fn(p0, mod, "inner_target", const=45)
                 p0["order"][mod].remove(("fn", tgt))
                 p0["order"][mod].insert(0, ("fn", tgt))
-                f["stmts"].append(gen.s_nested_def(62, None, tgt))
+                f["stmts"].append(gen.s_nested_def(62, None, tgt, form=variant.partition(":")[2] or None))
                 p1, d = gen.e_set_const(p0, tgt)
-            elif variant in ("nested_def", "nested_def_var"):
+            elif variant == "nested_def" or variant.startswith("nested_def_var"):
                 vid = None
-                if variant == "nested_def_var":
+                if variant.startswith("nested_def_var"):
                     vid = gen.add_var(p0, mod, "V_NESTED", "int")
                     p0["order"][mod].remove(("var", vid))
                     p0["order"][mod].insert(0, ("var", vid))
-                f["stmts"].append(gen.s_nested_def(60, vid))
+                f["stmts"].append(gen.s_nested_def(60, vid, form=variant.partition(":")[2] or None))
                 if vid:
                     p1, d = gen.e_set_var(p0, vid)
                 else:
@@ -356,9 +370,9 @@ def zero_edit_cases(tier, seed, stores=("local",)):
     reordering, non-accepted edits, relocation, entry-style switches."""
     cases = []
     k = 0
-    for layout, form in (("three", "from_import"), ("one", "from_import"), ("deep", "rel_from"), ("three", "import_mod_as"), ("two", "from_import_as")):
+    for layout, form, *flags in (("three", "from_import"), ("one", "from_import"), ("deep", "rel_from"), ("three", "import_mod_as"), ("two", "from_import_as"), ("three", "from_import", "ext-inside"), ("deep", "from_import", "ext-inside")):
         for entry_data in (False, True):
-            p0 = base_program("pz%d" % k, layout=layout, import_form=form, entry_data=entry_data)
+            p0 = base_program("pz%d" % k, layout=layout, import_form=form, entry_data=entry_data, ext_inside="ext-inside" in flags)
             k += 1
             ids = p0["_ids"]
             versions = [p0]
@@ -412,7 +426,7 @@ def zero_edit_cases(tier, seed, stores=("local",)):
                          {"v": last, "new_process": False, "style": "call"}]
             hist.append({"v": 0, "new_process": True})
             for store in stores:
-                cases.append(_case("zero-edit:%s/%s/%s|%s" % (layout, form, "data-entry" if entry_data else "plain-entry", store), versions, descs, hist, store))
+                cases.append(_case("zero-edit:%s/%s%s/%s|%s" % (layout, form, "".join("+" + x for x in flags), "data-entry" if entry_data else "plain-entry", store), versions, descs, hist, store))
     return cases
 
 
@@ -539,7 +553,7 @@ def random_program(rng, pkg, nfn=None, with_loads=False):
         if rng.random() < 0.12:
             # a function defined inside the body that calls a plain leaf helper (or nothing)
             lf = [g for g in fids if not p["fns"][g]["params"] and p["fns"][g]["data_path"] is None and not _has_keep_site(p, g) and g not in kept_callees and mods.index(p["fns"][g]["module"]) <= mi]
-            f["stmts"].append(gen.s_nested_def(400 + i, None, rng.choice(lf) if lf and rng.random() < 0.7 else None))
+            f["stmts"].append(gen.s_nested_def(400 + i, None, rng.choice(lf) if lf and rng.random() < 0.7 else None, form=rng.choice([None, None, "default", "lambda_default"])))
         if rng.random() < 0.15:
             # a class whose method is used by this function (optionally reading a variable / calling a leaf function)
             leafs = [g for g in fids if not p["fns"][g]["params"] and p["fns"][g]["data_path"] is None and not _has_keep_site(p, g) and g not in kept_callees and mods.index(p["fns"][g]["module"]) <= mi]
